@@ -43,6 +43,8 @@ class SMMapSetMeta:
         """Reads the metadata strings"""
         # A file without a #STOPS tag has no stops
         bcs_s, stops = None, SMStopList([])
+        # Tags can come in any order, #STOPS needs #BPMS and #OFFSET: read last
+        stops_tokens = None
         for line in lines:
             if line == "":
                 continue
@@ -87,7 +89,7 @@ class SMMapSetMeta:
             elif s[0] == "#BPMS":
                 bcs_s = self._read_bpms(s[1].strip().split(","))
             elif s[0] == "#STOPS":
-                stops = self._read_stops(bcs_s, self.offset, s[1].strip().split(","))
+                stops_tokens = s[1].strip().split(",")
             elif s[0] == "#SAMPLESTART":
                 self.sample_start = RAConst.sec_to_msec(float(s[1].strip()))
             elif s[0] == "#SAMPLELENGTH":
@@ -100,6 +102,9 @@ class SMMapSetMeta:
                 self.bg_changes = s[1].strip()
             elif s[0] == "#FGCHANGES":
                 self.fg_changes = s[1].strip()
+
+        if stops_tokens is not None:
+            stops = self._read_stops(bcs_s, self.offset, stops_tokens)
 
         return bcs_s, stops
 
